@@ -431,7 +431,7 @@ def run_parallel(cmds, timeout):
     return res
 
 
-def run_mode(ctx, harness, driver, mode, total, shards=NCPU, extra="", drv_modes=None, timeout=420, seed_offset=0, tag=None):
+def run_mode(ctx, harness, driver, mode, total, shards=NCPU, extra="", drv_modes=None, timeout=1500, seed_offset=0, tag=None):
     """Runs `harness <mode>` in `shards` processes (different seeds derived from ctx.seed), then the
     driver (once per entry of drv_modes = [(driver mode, extra args)]) on each output.
     Returns a list with one entry per shard: (impl_cases, [model_cases per drv mode], cases_path),
